@@ -123,6 +123,7 @@ MUTANTS.append(('M73', K, '            -s5 * c6, s5 * s6, c5,', '            -s5
 MUTANTS.append(('M74', CA, '                        let flags = if p < extension.len() - 1 {', '                        let flags = if p < extension.len() {', 'C12', 'R12.5', 'the target waypoint of a Cartesian step is flagged as interpolated'))
 MUTANTS.append(('M75', F, '        let transformed_joints = self.robot.inverse_continuing(&tcp_frame, previous);', '        let transformed_joints = self.robot.inverse_continuing(&tcp_no_frame, previous);', 'C17', 'R17.5', 'forward_transformed solves for the untransformed pose'))
 MUTANTS.append(('M76', U, '        .map(|&v| if v < 0.0 { -1 } else { 1 })', '        .map(|&v| if v <= 0.0 { 1 } else { -1 })', 'C20', 'R20.7', 'axis sign inverted'))
+MUTANTS.append(('M77', C, '                if span == 0.0 {\n                    span = 2.0 * PI; // from == to: unconstrained\n                }\n', '', 'C18', 'R18.2', 'from == to draws from an empty range (panic)'))
 MUTANTS = [m for m in MUTANTS if m[0] not in ('M34',)]
 MUTANTS.append(('M34', T, "    fn constraints(&self) -> &Option<Constraints> {\n        self.robot.constraints()\n    }    \n}\n\n// Define the Cart",
                 "    fn constraints(&self) -> &Option<Constraints> {\n        &None\n    }    \n}\n\n// Define the Cart", 'C08', 'R08.4', 'Base reports no limits'))
